@@ -205,6 +205,15 @@ def c12():
                 add(prefix, [{"pid": 1, "kind": "publish", "batch": b1}, {"pid": 2, "kind": "publish", "batch": b2}],
                     [2] * i + [1] * 80 + [2] * 80, ["none", "default"][(k + i) % 2])
                 bs[-1]["faults"] = [[1, k]]
+    # (vi) completion-gated, cold cache: a publish (one that changes nothing, or a real one) has a database answer
+    # held back while another publish commits; a third publish then builds on what the instance has cached
+    for zi, zbatch in enumerate(([["a", "x"]], [["b", "y"]])):
+        for i in (range(1, 12) if chk.tier == "quick" else range(1, 30)):
+            for order in ((1, 2), (2, 1)):
+                procs = [{"pid": 3, "kind": "publish", "batch": zbatch}, {"pid": 1, "kind": "publish", "batch": [["a", "y"]]},
+                         {"pid": 2, "kind": "publish", "batch": [["b", "x"], ["c", "x"]]}]
+                add([[["a", "x"]]], procs, [3] * i + [order[0]] * 300 + [3] * 300 + [order[1]] * 300, "default")
+                bs[-1].update(post=True, flush_before=True, labels=["a", "b", "c"])
     traces = run_conc_harness(chk, bs)
     results = validate_traces("TraceDirectory", "TraceDirectory.cfg", traces, chk.wd)
     chk.handle_validation(results)
